@@ -33,7 +33,7 @@ def realistic_links(L):
 def graph_for(L, linkmode):
     if linkmode == "complete":
         return L.graph("complete")
-    return L.graph(realistic_links(L))
+    return L.graph(realistic_links(L), sn_last=True)
 
 
 def walk_records(g, L, maxlen, exhaustive_offsets=False, cap_offsets=3):
@@ -81,6 +81,10 @@ def touched_nodes(g, rec):
 def write_gaf(path, text, variant):
     """variant: ('plain',) or ('bgzf', cuts, empty_after, eof) or ('pysam',)"""
     data = text.encode()
+    if variant[0].endswith("-nonl"):
+        # the same records, but the last line is not newline terminated
+        data = data.rstrip(b"\n")
+        variant = (variant[0][: -len("-nonl")],) + tuple(variant[1:])
     if variant[0] == "plain":
         with open(path, "wb") as f:
             f.write(data)
